@@ -118,23 +118,31 @@ BitsMatchStd ==
               ELSE (Sub % 20 \in 1 .. 7 /\ Sub \div 20 \in 1 .. 6 => PlainOK(StdIgs(Sub % 20)))
     ELSE (id \in DOMAIN StdPlain => PlainOK(StdPlain[id]))
 
-\* the pinned length for one concrete count vector (printed for the behavioural binding):
-\* N = 2, M = 1, optional groups present; MSM 3 satellites x 2 signals, 4 cells; VTEC 2 layers, 3 + 1 coefficients
-StdAt ==
-  IF TableOf[id] = "msm"
-  THEN IF Mid \div 10 \in 107 .. 113 /\ Mid % 10 \in 1 .. 7
-       THEN MsmHeader + 6 + 3 * MsmSat(Mid % 10) + 4 * MsmCell(Mid % 10) ELSE -1
-  ELSE IF TableOf[id] = "igs"
-       THEN IF Sub = 201 THEN StdVtecHeader + 2 * (StdVtecLayer + StdVtecCoef * 4)
-            ELSE IF Sub % 20 \in 1 .. 7 /\ Sub \div 20 \in 1 .. 6
-                 THEN LET s == StdIgs(Sub % 20) IN s.c0 + 2 * s.c1 + 2 * s.c2 + s.o ELSE -1
-  ELSE IF id \in DOMAIN StdPlain THEN LET s == StdPlain[id] IN s.c0 + 2 * s.c1 + 2 * s.c2 + s.o ELSE -1
+\* the pinned length for concrete count vectors (printed for the behavioural binding):
+\* plain <<N, M>> (optional groups present); MSM <<nsat, nsig, ncell>>; VTEC <<layers, degree, order>>
+PlainVecs == << <<0, 0>>, <<1, 1>>, <<2, 1>>, <<5, 3>> >>
+MsmVecs   == << <<3, 2, 4>>, <<1, 1, 1>>, <<8, 4, 20>>, <<2, 3, 0>> >>
+VtecVecs  == << <<1, 1, 1>>, <<1, 3, 2>>, <<2, 4, 1>>, <<1, 16, 16>>, <<1, 16, 3>>, <<3, 2, 2>>, <<4, 5, 4>> >>
+IsMsm  == TableOf[id] = "msm" /\ Mid \div 10 \in 107 .. 113 /\ Mid % 10 \in 1 .. 7
+IsIgs  == TableOf[id] = "igs" /\ Sub # 201 /\ Sub % 20 \in 1 .. 7 /\ Sub \div 20 \in 1 .. 6
+PlainStd == IF IsIgs THEN StdIgs(Sub % 20) ELSE StdPlain[id]
+Vecs ==
+  IF IsMsm THEN MsmVecs
+  ELSE IF TableOf[id] = "igs" /\ Sub = 201 THEN VtecVecs
+  ELSE IF IsIgs \/ (TableOf[id] = "get" /\ id \in DOMAIN StdPlain) THEN PlainVecs
+  ELSE << >>
+StdAt(v) ==
+  IF IsMsm THEN MsmHeader + v[1] * v[2] + v[1] * MsmSat(Mid % 10) + v[3] * MsmCell(Mid % 10)
+  ELSE IF TableOf[id] = "igs" /\ Sub = 201 THEN VtecBits(v[1], v[2], v[3])
+  ELSE LET s == PlainStd IN s.c0 + v[1] * s.c1 + v[1] * v[2] * s.c2 + s.o
+
 \* which oracle decided (for the evidence)
 Verdict ==
   IF TableOf[id] = "msm" THEN "msm" ELSE IF TableOf[id] = "igs" THEN "igs"
   ELSE IF id \in DOMAIN StdPlain THEN StdPlain[id].prov ELSE "unlisted"
 
-PrintStd == PrintT(<<"STD", id, StdAt, Verdict>>)
+PrintStd == \A k \in 1 .. Len(Vecs) : PrintT(<<"STD", id, k, Vecs[k], StdAt(Vecs[k]), Verdict>>)
+PrintNone == Vecs = << >> => PrintT(<<"STD", id, 0, << >>, -1, Verdict>>)
 
 \* ---- dispatch ---------------------------------------------------------------------
 RangeTable(m) == IF m \in 1070 .. 1229 THEN "msm" ELSE IF m = 4076 THEN "igs" ELSE "get"
